@@ -51,7 +51,7 @@ func VerifHarness_C01() {
 	o.MinNodes, o.MaxNodes = 0, 10
 	g := w.addGroup(o, 0, 10, 0)
 	classes := c01Classes[menu]
-	prior := verifShape(5) == 1
+	prior := verifShape(5) >= 1
 	type nodeIn struct {
 		class    int
 		cordoned bool
@@ -65,8 +65,13 @@ func VerifHarness_C01() {
 		taintAge := verifInt("n"+is+".taintAge", w.minTaintAge, 2000)
 		ins = append(ins, nodeIn{class, cordoned, taintAge})
 		if prior {
-			// the earlier scan saw this node untainted and schedulable
-			w.addNode(g, tcNone, false, 0, 0, int64(5000+100*i), true)
+			// the earlier scan saw this node schedulable and untainted -- or (shape 2) freshly tainted,
+			// so that the earlier scan went through its tainted-node bookkeeping
+			pc := tcNone
+			if verifShape(5) == 2 {
+				pc = []int{tcNone, tcEsc}[verifChoice("n"+is+".priorClass", 2)]
+			}
+			w.addNode(g, pc, false, 0, 0, int64(5000+100*i), true)
 		} else {
 			w.addNode(g, class, cordoned, 0, taintAge, int64(5000+100*i), true)
 		}
@@ -109,7 +114,9 @@ func VerifHarness_C01() {
 	if prior {
 		// an earlier scan of the same controller (state carried in memory: node->pods map,
 		// cached capacity, delta), then the cluster changes to the snapshot under test
+		verifFreezeClock(w.base, 0)
 		_ = w.ctrl.RunOnce()
+		verifUnfreezeClock()
 		for i, n := range w.nodes {
 			w.retaint(n, ins[i].class, ins[i].age)
 			n.obj.Spec.Unschedulable = ins[i].cordoned
